@@ -88,8 +88,10 @@ func extractSchemes() []extractScheme {
 			},
 			equal: func(a, b any) bool { return a.(*hashcom.CommitmentKey).Equal(b.(*hashcom.CommitmentKey)) },
 		},
-		pedersenExtractScheme(kc),
-		pedersenExtractScheme(bc),
+		pedersenExtractScheme(kc, 1),
+		pedersenExtractScheme(bc, 1),
+		pedersenExtractScheme(kc, 7), // a caller-chosen base point other than the canonical generator
+
 		{
 			name: "intcom",
 			extract: func(t ts.Transcript, label string) (any, string, error) {
@@ -104,13 +106,17 @@ func extractSchemes() []extractScheme {
 	}
 }
 
-func pedersenExtractScheme[E algebra.PrimeGroupElement[E, S], S algebra.PrimeFieldElement[S]](c *curveCtx[E, S]) extractScheme {
+func pedersenExtractScheme[E algebra.PrimeGroupElement[E, S], S algebra.PrimeFieldElement[S]](c *curveCtx[E, S], baseMul int64) extractScheme {
+	base := c.group.Generator().ScalarOp(c.scalar(bi(baseMul)))
 	return extractScheme{
-		name: "pedersen-" + c.name,
+		name: fmt.Sprintf("pedersen-%s-base%dG", c.name, baseMul),
 		extract: func(t ts.Transcript, label string) (any, string, error) {
-			k, err := pedersencom.ExtractCommitmentKey(t, label, c.group.Generator())
+			k, err := pedersencom.ExtractCommitmentKey(t, label, base)
 			if err != nil {
 				return nil, "", err
+			}
+			if c.affine(k.G()).key() != c.affine(base).key() {
+				return nil, "", fmt.Errorf("the extracted key's g is not the base point the caller supplied (%d*G)", baseMul)
 			}
 			return k, c.affine(k.G()).key() + c.affine(k.H()).key(), nil
 		},
